@@ -120,6 +120,10 @@ func solveOne(o *Obligation, scratch string, timeoutS int, cross bool) {
 	var outputs []string
 	o.Status = "unknown"
 	for si, s := range solvers {
+		if o.Expect == "sat" && si > 0 {
+			o.Status, o.Solver = "discharged", "none (no solver found the path condition contradictory)"
+			break
+		}
 		if o.Sweep && si > 0 {
 			break // sweeps: primary solver only
 		}
@@ -127,8 +131,15 @@ func solveOne(o *Obligation, scratch string, timeoutS int, cross bool) {
 		if o.Sweep && t > 4 {
 			t = 4
 		}
-		if si == 0 && timeoutS > 4 {
-			t = timeoutS // primary solver gets the full budget
+		if o.Expect == "sat" {
+			// cover queries: only a definite `unsat` matters
+			if si > 0 {
+				o.Status, o.Solver = "discharged", "none (no solver found the path condition contradictory)"
+				break
+			}
+			if t > 1 {
+				t = 1
+			}
 		}
 		status, out, dur := runSolver(s, file, t)
 		total += dur
